@@ -1,6 +1,6 @@
 (** C13 — a singly-linked list equals a reference sequence and its tail is
     the true last element.  Statements only; proofs are in SListProofs.v. *)
-From Cstl Require Import Prelude SListModel SListProofs.
+From Cstl Require Import Prelude SListModel SListProofs SListPtrModel SListPtrProofs.
 
 Section C13.
   Variable key : nat -> Z.
@@ -77,6 +77,26 @@ Section C13.
   Qed.
 End C13.
 
+(** Pointer level.  SListPtrModel re-implements slist.c on a heap of [n]
+    links (one update per C assignment).  For every history that does not use
+    sort it produces exactly the outputs of the sequence model and stays
+    related to it by the representation relation [R] (each list's chain from
+    its head link spells the sequence and ends in NULL, the tail pointer is the
+    address of the last node or of the head link, the count is the length) --
+    so everything above also holds of the pointer-level model.
+    PARTIAL: sort (merge sort on stack-local list heads) is executed by the
+    pointer model and compared with the C code on every run, but its
+    simulation proof is not done; full statement = the same without the
+    [~ In (Sort l) ops] hypothesis. *)
+Theorem C13_pointer_level_partial (key : nat -> Z) n ops :
+  (forall l, ~ In (Sort l) ops) ->
+  match run (SListModel.step key false) (sys_init n) ops, run (p_step key) (p_init n) ops with
+  | (Done a' _, outs), (Done p' _, outs') => R a' p' /\ outs = outs' /\ sys_wf a'
+  | (Precond, outs), (Precond, outs') => outs = outs'
+  | _, _ => False
+  end.
+Proof. exact (fun H => sim_run key ops (sys_init n) (p_init n) (sys_wf_init n) (R_init n) H). Qed.
+
 (** Non-vacuity: a concrete history (3 lists, keys 1 0 1 0 2) reaches a
     non-trivial well-formed state through every kind of operation. *)
 Example C13_example_run :
@@ -95,3 +115,4 @@ Print Assumptions C13_tail_is_last.
 Print Assumptions C13_push_back_appends.
 Print Assumptions C13_pop_front_empty.
 Print Assumptions C13_run_safe.
+Print Assumptions C13_pointer_level_partial.
